@@ -7124,6 +7124,26 @@ let call_body d cc absorb_return m0 s =
         else ((Fail FReturn), (set_depth d s'))
       | _ -> ((Fail fl), (set_depth d s'))))
 
+(** val is_not_defined : ecls -> bool **)
+
+let is_not_defined = function
+| ENotDefined -> true
+| _ -> false
+
+(** val is_array_direct : n -> ecls -> bool **)
+
+let is_array_direct c = function
+| EArrayDirect c' -> N.eqb c' c
+| _ -> false
+
+(** val catch_cls : 'a1 m -> (ecls -> bool) -> (fail -> 'a1 m) -> 'a1 m **)
+
+let catch_cls m0 want h =
+  catch m0 (fun fl ->
+    match fl with
+    | FErr d -> if want d.d_cls then Some (h fl) else None
+    | _ -> None)
+
 (** val ped_guard : bool -> token -> unit m **)
 
 let ped_guard pedantic t0 =
@@ -8769,18 +8789,12 @@ let run_block pedantic repl lim =
                                    ret (res_of target p'))))
        | NAccess (t0, r) ->
          bind
-           (catch (bind (resolve f r c) (fun x -> ret (Inl x))) (fun fl ->
-             match fl with
-             | FErr d ->
-               (match d.d_cls with
-                | ENotDefined ->
-                  Some
-                    (bind (get_enum_element c t0.tval true) (fun e ->
-                      match e with
-                      | Some ti -> ret (Inr ti)
-                      | None -> failm fl))
-                | _ -> None)
-             | _ -> None)) (fun h ->
+           (catch_cls (bind (resolve f r c) (fun x -> ret (Inl x)))
+             is_not_defined (fun fl ->
+             bind (get_enum_element c t0.tval true) (fun en ->
+               match en with
+               | Some ti -> ret (Inr ti)
+               | None -> failm fl))) (fun h ->
            match h with
            | Inl h0 ->
              (match h0 with
@@ -8798,45 +8812,34 @@ let run_block pedantic repl lim =
                (PEnum (tn, i))) })
        | NAssign (t0, e, r) ->
          bind
-           (catch (bind (eval f e c) (fun x -> ret (Some x))) (fun fl ->
-             match fl with
-             | FErr d ->
-               (match e with
-                | NAccess (_, _) ->
-                  (match d.d_cls with
-                   | EArrayDirect c' ->
-                     if N.eqb c' c then Some (ret None) else None
-                   | _ -> None)
-                | _ -> None)
-             | _ -> None)) (fun vr ->
+           (match e with
+            | NAccess (_, _) ->
+              catch_cls (bind (eval f e c) (fun x -> ret (Some x)))
+                (is_array_direct c) (fun _ -> ret None)
+            | _ -> bind (eval f e c) (fun x -> ret (Some x))) (fun vr ->
            match vr with
            | Some v ->
              if dt_is v.r_type KNone
              then rt_error t0 c
              else bind
-                    (catch
-                      (bind (resolve f r c) (fun h ->
-                        expect_holder_var t0 c h)) (fun fl ->
-                      match fl with
-                      | FErr d ->
-                        (match d.d_cls with
-                         | ENotDefined ->
-                           (match r with
-                            | RSimple tk ->
-                              Some
-                                (bind (is_identifier_type c tk true)
-                                  (fun ist ->
-                                  if ist
-                                  then failm fl
-                                  else bind (ped_guard pedantic t0) (fun _ ->
-                                         bind
-                                           (new_var f tk.tval v.r_type false
-                                             c) (fun nid ->
-                                           bind (add_var c tk.tval nid)
-                                             (fun _ -> ret nid)))))
-                            | _ -> None)
-                         | _ -> None)
-                      | _ -> None)) (fun id -> store_value t0 c id v)
+                    (match r with
+                     | RSimple tk ->
+                       catch_cls
+                         (bind (resolve f r c) (fun h ->
+                           expect_holder_var t0 c h)) is_not_defined
+                         (fun fl ->
+                         bind (is_identifier_type c tk true) (fun ist ->
+                           if ist
+                           then failm fl
+                           else bind (ped_guard pedantic t0) (fun _ ->
+                                  bind (new_var f tk.tval v.r_type false c)
+                                    (fun nid ->
+                                    bind (add_var c tk.tval nid) (fun _ ->
+                                      ret nid)))))
+                     | _ ->
+                       bind (resolve f r c) (fun h ->
+                         expect_holder_var t0 c h)) (fun id ->
+                    store_value t0 c id v)
            | None ->
              (match e with
               | NAccess (ta, ra) ->
@@ -9088,27 +9091,20 @@ let run_block pedantic repl lim =
            (fun _ -> bind (emit (ch_nl :: [])) (fun _ -> ret res_none))
        | NInput (t0, r) ->
          bind
-           (catch (bind (resolve f r c) (fun h -> expect_holder_var t0 c h))
-             (fun fl ->
-             match fl with
-             | FErr d ->
-               (match d.d_cls with
-                | ENotDefined ->
-                  (match r with
-                   | RSimple tk ->
-                     Some
-                       (bind (is_identifier_type c tk true) (fun ist ->
-                         if ist
-                         then failm fl
-                         else bind (ped_guard pedantic tk) (fun _ ->
-                                bind
-                                  (new_var f tk.tval (dt_prim KStr) false c)
-                                  (fun nid ->
-                                  bind (add_var c tk.tval nid) (fun _ ->
-                                    ret nid)))))
-                   | _ -> None)
-                | _ -> None)
-             | _ -> None)) (fun id ->
+           (match r with
+            | RSimple tk ->
+              catch_cls
+                (bind (resolve f r c) (fun h -> expect_holder_var t0 c h))
+                is_not_defined (fun fl ->
+                bind (is_identifier_type c tk true) (fun ist ->
+                  if ist
+                  then failm fl
+                  else bind (ped_guard pedantic tk) (fun _ ->
+                         bind (new_var f tk.tval (dt_prim KStr) false c)
+                           (fun nid ->
+                           bind (add_var c tk.tval nid) (fun _ -> ret nid)))))
+            | _ -> bind (resolve f r c) (fun h -> expect_holder_var t0 c h))
+           (fun id ->
            bind (get_cell id) (fun cl ->
              if cl.c_const
              then rt_error t0 c
